@@ -30,7 +30,9 @@ CONSTANTS
   SwCoerceResetsParams, \* IssueFromCoerce clears Params
   SwTestResetsMsg,      \* IssueFromTest clears Message (so that the formatter runs)
   SwCoerceResetsMsg,    \* IssueFromCoerce clears Message
-  SwCollectOncePerIssue \* CollectMap releases each issue once ($first is the same object as a keyed one)
+  SwCollectOncePerIssue, \* CollectMap releases each issue once ($first is the same object as a keyed one)
+  SwPoolNewFresh,       \* a pool's New function allocates a new object every time it is called
+  SwFrontEndIssueFresh  \* the issue a front end reports for an undecodable body is a new, fully initialised object
 
 ObjKinds == {"exec", "errs", "path", "sctx", "issue"}
 CONSTANT MaxObj   \* ids per kind
@@ -55,6 +57,11 @@ VARIABLES
 
 vars == <<bag, wr, holder, fresh, pc, ncall, stale, clash>>
 
+\* a call made from inside a user callback of another call runs on the same goroutine while the outer call is suspended:
+\* modelled as a child process that may only run while its parent waits at a "nest" operation
+Child(p) == p + 10
+AllProcs == Procs \cup {Child(p) : p \in Procs}
+
 Idle == [call |-> 0, kind |-> "none", i |-> 0, held |-> [k \in ObjKinds |-> 0], iss |-> <<>>, done |-> 0, retd |-> <<>>]
 
 (***************************************************************************)
@@ -71,6 +78,8 @@ Idle == [call |-> 0, kind |-> "none", i |-> 0, held |-> [k \in ObjKinds |-> 0], 
 (*   ret                  the caller receives the issues: every field of   *)
 (*                        every returned issue is read                     *)
 (*   collect              the user hands the returned issues back          *)
+(*   nest                 a user callback makes a complete call of its own *)
+(*   issueJ               the front end reports an undecodable body        *)
 (***************************************************************************)
 Prologue == <<<<"get", "errs">>, <<"get", "exec">>>>
 Middle   == <<<<"get", "path">>, <<"get", "sctx">>>>
@@ -86,6 +95,10 @@ Body(kind) ==
     [] kind = "coerce"   -> <<<<"issueC", "">>, <<"readflags", "">>, <<"readfmt", "">>, <<"add", "">>>>
     [] kind = "custom"   -> <<<<"issueN", "">>, <<"readflags", "">>, <<"readfmt", "">>, <<"add", "">>>>
     [] kind = "catch"    -> <<<<"cancatch", "">>, <<"issueT", "">>, <<"readflags", "">>, <<"swallow", "">>>>
+    \* a TestFunc that parses something else with another schema, then fails
+    [] kind = "nested"   -> <<<<"nest", "">>, <<"issueT", "">>, <<"readflags", "">>, <<"readfmt", "">>, <<"add", "">>>>
+    \* zhttp with an undecodable JSON body: the front end's issue is completed by the root node and recorded
+    [] kind = "badjson"  -> <<<<"issueJ", "">>, <<"readfmt", "">>, <<"add", "">>>>
     [] OTHER             -> <<>>
 
 Options(kind) == IF kind = "ctxval" THEN <<<<"setm", "">>>> ELSE IF kind = "fmtopt" THEN <<<<"setfmt", "">>>> ELSE <<>>
@@ -99,12 +112,13 @@ Init ==
   /\ wr = [k \in ObjKinds |-> [i \in Ids |-> [f \in Fields(k) |-> 0]]]
   /\ holder = [k \in ObjKinds |-> [i \in Ids |-> {}]]
   /\ fresh = [k \in ObjKinds |-> 1]
-  /\ pc = [p \in Procs |-> Idle]
+  /\ pc = [p \in AllProcs |-> Idle]
   /\ ncall = 0
   /\ stale = {}
   /\ clash = {}
 
 StartCall(p, kind, collect) ==
+  /\ p \in Procs
   /\ pc[p].call = 0 /\ pc[p].done < MaxCalls
   /\ ncall' = ncall + 1
   /\ pc' = [pc EXCEPT ![p] = [Idle EXCEPT !.call = ncall + 1, !.kind = kind, !.i = 1, !.done = pc[p].done,
@@ -124,10 +138,11 @@ InitWrites(k, w, c) ==
     [] k = "sctx"  -> [w EXCEPT !["flags"] = IF SwResetFlags THEN 0 ELSE @]
     [] OTHER       -> w
 
-\* sync.Pool.Get: any pooled object, or a fresh one
+\* sync.Pool.Get: any pooled object, or what New returns (a fresh object)
+NewId(k) == IF SwPoolNewFresh \/ fresh[k] = 1 THEN fresh[k] ELSE 1
 GetObj(p, k, id) ==
   /\ \/ bag[k][id] > 0 /\ bag' = [bag EXCEPT ![k][id] = @ - 1] /\ fresh' = fresh
-     \/ id = fresh[k] /\ id <= MaxObj /\ bag' = bag /\ fresh' = [fresh EXCEPT ![k] = @ + 1]
+     \/ id = NewId(k) /\ id <= MaxObj /\ bag' = bag /\ fresh' = [fresh EXCEPT ![k] = IF id = @ THEN @ + 1 ELSE @]
   /\ holder' = [holder EXCEPT ![k][id] = @ \cup {p}]
   /\ clash' = IF holder[k][id] # {} THEN clash \cup {[kind |-> k, id |-> id, what |-> "got while held"]} ELSE clash
 
@@ -190,6 +205,36 @@ DoIssue(p) ==
        /\ pc' = [Advance(p) EXCEPT ![p].held["issue"] = id]
   /\ UNCHANGED <<ncall, stale>>
 
+\* the front end's issue: a new object whose every field the front end (and the root node) sets -- or, with the switch
+\* off, a pooled object of which only the core is set
+DoIssueJ(p) ==
+  /\ pc[p].call # 0 /\ Op(p)[1] = "issueJ"
+  /\ LET c == pc[p].call IN
+     \E id \in Ids :
+       /\ IF SwFrontEndIssueFresh
+          THEN /\ id = fresh["issue"] /\ id <= MaxObj
+               /\ fresh' = [fresh EXCEPT !["issue"] = @ + 1] /\ bag' = bag
+               /\ holder' = [holder EXCEPT !["issue"][id] = @ \cup {p}] /\ clash' = clash
+               /\ wr' = [wr EXCEPT !["issue"][id] = [core |-> c, params |-> 0, msg |-> 0]]
+          ELSE /\ GetObj(p, "issue", id)
+               /\ wr' = [wr EXCEPT !["issue"][id] = [core |-> c, params |-> @.params, msg |-> @.msg]]
+       /\ pc' = [Advance(p) EXCEPT ![p].held["issue"] = id]
+  /\ UNCHANGED <<ncall, stale>>
+
+\* a user callback of p's call makes a call of its own: the child runs one complete failing call, then p goes on
+StartNested(p) ==
+  /\ p \in Procs /\ pc[p].call # 0 /\ Op(p)[1] = "nest"
+  /\ pc[Child(p)].call = 0 /\ pc[Child(p)].done = 0
+  /\ ncall' = ncall + 1
+  /\ pc' = [pc EXCEPT ![Child(p)] = [Idle EXCEPT !.call = ncall + 1, !.kind = "fail1", !.i = 1]]
+  /\ UNCHANGED <<bag, wr, holder, fresh, stale, clash>>
+
+EndNested(p) ==
+  /\ p \in Procs /\ pc[p].call # 0 /\ Op(p)[1] = "nest"
+  /\ pc[Child(p)].call = 0 /\ pc[Child(p)].done = 1
+  /\ pc' = [Advance(p) EXCEPT ![Child(p)] = Idle]
+  /\ UNCHANGED <<bag, wr, holder, fresh, ncall, stale, clash>>
+
 DoSwallow(p) ==
   /\ pc[p].call # 0 /\ Op(p)[1] = "swallow"
   /\ PutObj("issue", pc[p].held["issue"], p)
@@ -231,11 +276,12 @@ GCDrop(k) ==
   /\ bag' = [bag EXCEPT ![k] = [id \in Ids |-> 0]]
   /\ UNCHANGED <<wr, holder, fresh, pc, ncall, stale, clash>>
 
-Step(p) == DoGet(p) \/ DoPut(p) \/ DoLocal(p) \/ DoIssue(p) \/ DoSwallow(p) \/ DoRet(p) \/ DoCollect(p)
+Step(p) == DoGet(p) \/ DoPut(p) \/ DoLocal(p) \/ DoIssue(p) \/ DoIssueJ(p) \/ DoSwallow(p) \/ DoRet(p) \/ DoCollect(p)
 
 Next ==
   \/ \E p \in Procs, kind \in Kinds, collect \in BOOLEAN : StartCall(p, kind, collect)
-  \/ \E p \in Procs : Step(p)
+  \/ \E p \in AllProcs : Step(p)
+  \/ \E p \in Procs : StartNested(p) \/ EndNested(p)
   \/ \E k \in {"issue", "exec"} : GCDrop(k)
 
 Spec == Init /\ [][Next]_vars
